@@ -34,10 +34,10 @@ func vSameStrs(a, b []string) bool {
 func H_C20_j2x() {
 	k := vNondetString(1, 1, "ab")
 	v := vNondetString(1, 1, "x<&")
-	j := []byte("{\"r\":{\"" + k + "\":\"" + v + "\",\"b\":[1,true],\"c\":{\"" + k + "\":\"z\"}}}")
+	j := []byte("{ \"r\" : {\"z\":1.50, \"" + k + "\":\"" + v + "\",\n\"b\":[1, true],\"c\":{\"" + k + "\":\"z\"}}}")
 	core, cerr := NewMapJson(j)
 	vAssert(cerr == nil, "j2x: the input decodes")
-	key := vNondetString(1, 1, "abc")
+	key := vNondetString(1, 1, "abcq")
 	safe := vChoose(2) == 1
 	switch vChoose(12) {
 	case 0:
@@ -62,7 +62,8 @@ func H_C20_j2x() {
 	case 3:
 		raw, x, err := JsonReaderToXml(bytes.NewReader(j))
 		want, _ := core.Xml()
-		vAssert(err == nil && string(x) == string(want) && string(raw) == string(j), "j2x: JsonReaderToXml equals NewMapJsonReaderRaw then Xml")
+		_, wraw, _ := NewMapJsonReaderRaw(bytes.NewReader(j))
+		vAssert(err == nil && string(x) == string(want) && string(raw) == string(wraw), "j2x: JsonReaderToXml equals NewMapJsonReaderRaw then Xml")
 		w := &vWriter{}
 		vAssert(JsonReaderToXmlWriter(bytes.NewReader(j), w) == nil && string(w.buf) == string(want), "j2x: JsonReaderToXmlWriter writes the same XML")
 	case 4:
